@@ -255,6 +255,8 @@ impl Expression for ExpressionIndex {
             (Err(err), _) => Err(err),
             (_, Err(err)) => Err(err),
             (Ok(left_value), Ok(index_value)) => {
+                // Read the index before the container is locked: both may be the same Arc.
+                let index_number = numeric_to_integer(index_value.lock().unwrap().deref());
                 let mut data_ref = left_value.lock().unwrap();
                 let data = data_ref.deref_mut();
                 match data {
@@ -280,7 +282,7 @@ impl Expression for ExpressionIndex {
                         },
                         Err(err) => Err(err),
                     },
-                    Data::Array(m) => match numeric_to_integer(index_value.lock().unwrap().deref()) {
+                    Data::Array(m) => match index_number {
                         Some(index) => match m.get(index as usize) {
                             None => Err(format!("Index not found: {} (len={})", index, m.len())),
                             Some(value) => Ok(value.clone()),
